@@ -272,6 +272,27 @@ def run(rep, tier, rng):
             forms += [t, SANITY]
         cases.append(("c%d" % (i // CH), "prog", ["std"] + forms))
     impl = C.run_hx(cases)
+    # ONE-THREAD REPLAY of a sample of the chunks (each chunk has its own interpreter): all of them one after another on ONE thread
+    # must end exactly as on fresh threads - nothing an interpreter leaves in thread-local storage may make a LATER interpreter
+    # panic, fail or answer differently
+    sample = [c for c in cases if c[0] in impl and not (impl[c[0]] and impl[c[0]][0].startswith(("T ", "X ", "P process")))]
+    rng.shuffle(sample)
+    sample = sample[:60 if tier == "quick" else 400]
+    replay = C.run_hx_same_thread(sample, timeout=900)
+    if replay is None:
+        rep.extra["one_thread_replay"] = "the replay process did not finish (stack or memory exhaustion of a text is outside the claim)"
+    else:
+        nd = 0
+        for c in sample:
+            a, b = impl.get(c[0]), replay.get(c[0])
+            if a != b and nd < 3:
+                nd += 1
+                k = next((k for k in range(min(len(a or []), len(b or []))) if a[k] != b[k]), None)
+                rep.violation({"what": "a text evaluated by its own interpreter ends differently when other interpreters ran before it on the same thread "
+                                       "(a panic, a failure or another answer caused by what an earlier interpreter left in thread-local state)",
+                               "text": c[2][1 + k] if k is not None and 1 + k < len(c[2]) else None,
+                               "on_a_fresh_thread": a[k] if k is not None else a, "after_other_interpreters_on_the_thread": b[k] if k is not None else b})
+        rep.extra["one_thread_replay"] = {"chunks": len(sample), "texts": sum(len(c[2]) - 1 for c in sample) // 2}
     model = C.run_driver(cases)
     dist = {}
     bad_corr = 0
